@@ -188,9 +188,10 @@ class Gen:
                 return ["lit", rng.choice([1, 2, 3, -1])]           # int literal next to a float tensor
             return ["lit", self.lit(dt)]
         if allow_special and r < 0.42 and dt in ("F", "I"):
-            sp = [n for n in sorted(env) if self.flags.get(n) in ("litvar", "attr", "glob", "loopvar")
-                  and (self.types[n][0] == dt or (self.flags.get(n) in ("attr", "glob", "litvar") and self.types[n][0] in "FI" and dt == "F"))]
-            sp = [n for n in sp if not (self.flags.get(n) == "loopvar" and dt != "I")]
+            okdt = ("F", "I") if dt == "F" else ("I",)
+            sp = [n for n in sorted(env) if self.flags.get(n) in ("litvar", "attr", "glob") and self.types[n][0] in okdt]
+            if dt == "I":
+                sp += [n for n in sorted(env) if self.flags.get(n) == "loopvar"]
             if sp:
                 n = rng.choice(sp)
                 self.features.add("operand-" + self.flags[n])
@@ -387,6 +388,10 @@ class Gen:
 
     def cond(self, env, depth=2):
         """Scalar boolean condition for if / break; sometimes `not <tensor>` (python bool in eager mode)."""
+        battr = [n for n in sorted(env) if self.flags.get(n) == "attr" and self.types[n][0] == "B"]
+        if battr and self.rng.random() < 0.2:
+            self.features.add("bool-attr-as-if-test")
+            return ["var", self.rng.choice(battr)]
         e = self.expr(env, "B", "0", depth)
         if self.rng.random() < 0.12:
             self.features.add("not-in-condition")
@@ -429,8 +434,25 @@ class Gen:
         self.counter += 1
         env[name] = self.counter
 
+    def bounded_expr(self, env):
+        """An int64 scalar expression whose value stays within 0..3 (usable as a loop bound)."""
+        rng = self.rng
+        bs = [n for n in self.vars_of(env, "I", "0") if n in self.bounded]
+        r = rng.random()
+        if not bs or r < 0.15:
+            return ["call", "Constant", [], [["value_int", ["v", rng.choice([0, 1, 2, 3])]]]]
+        b = ["var", rng.choice(bs)]
+        if r < 0.45:
+            return b
+        if r < 0.75:
+            return ["call", "Min", [["bin", "+", b, ["lit", 1]], ["lit", 3]], []]
+        return ["call", "Max", [["bin", "-", b, ["lit", 1]], ["lit", 0]], []]
+
     def num_or_bool_update(self, env, v):
         dt, sc = self.types[v]
+        if v in self.bounded:
+            self.features.add("bounded-int-update")
+            return self.bounded_expr(env)
         if dt == "B":
             return ["bin", self.rng.choice(["&", "|"]), ["var", v], self.expr(env, "B", sc, 1)]
         return ["bin", self.rng.choice(["+", "-", "+"]), ["var", v], self.operand(env, dt, sc, 2)]
@@ -442,7 +464,7 @@ class Gen:
         if existing and prefer_existing and rng.random() < 0.75:
             v = self.pick_recent(existing, env)
             dt, sc = self.types[v]
-            if rng.random() < 0.6 and dt != "B":
+            if v in self.bounded or (rng.random() < 0.6 and dt != "B"):
                 e = self.num_or_bool_update(env, v)       # x = x op e  (loop carried when inside a loop)
             else:
                 e = self.expr(env, dt, sc, 2, top=True)
@@ -467,10 +489,13 @@ class Gen:
         src = self.rng.choice(c)
         dt, sc = self.types[src]
         same = [n for n in c if self.types[n] == (dt, sc) and n != src and n not in self.frozen and not n.startswith("_p_")]
+        same = [n for n in same if (n in self.bounded) <= (src in self.bounded)]
         if same and self.rng.random() < 0.4:
             v = self.rng.choice(same)
         else:
             v = self.new_name(dt, sc)
+            if src in self.bounded:
+                self.bounded.add(v)
         self.touch(env, v)
         self.features.add("alias-assign")
         return [["assign", v, ["var", src]]]
@@ -611,8 +636,6 @@ class Gen:
             body.append(["break_if", cb])
             self.features.add("for-break")
         self.frozen = frozen_before
-        del self.types[iv]  # the loop variable name may be reused by a later loop (python allows; new type entry)
-        self.types[iv] = ("I", "0")
         self.features.add("for")
         self.features.add("loop-depth-%d" % (self.maxdepth - depth + 1))
         return pre + [["for", iv, bound, body]]
@@ -942,7 +965,7 @@ NEAR_MISS_KINDS = [
     "break-not-last", "nested-function-shadow", "multi-assignment", "boolop-and", "return-none", "undefined-variable",
     "while-expression-test", "tuple-to-single", "augmented-assign", "for-tuple-target", "unconditional-break",
     "range-two-args", "starred-call", "lambda-expr", "return-in-loop", "break-on-expression", "if-expression",
-    "unknown-op", "bad-attribute-type", "subscript-store", "while-else", "for-else", "loop-without-state", "if-without-output",
+    "bad-attribute-type", "subscript-store", "while-else", "for-else", "loop-without-state", "if-without-output",
 ]
 
 
@@ -1031,3 +1054,116 @@ def mutate(p, kind, rng):
         raise KeyError(kind)
     q["body"] = core + [ret]
     return to_source(q)
+
+
+# ----------------------------------------------------------------------------- Coq printer (OV.Script.Syntax literals)
+
+import struct as _struct
+
+_BIN = {"+": "Add", "-": "Sub", "*": "Mult", "/": "Div", "%": "Mod", "**": "Pow", "&": "BitAnd", "|": "BitOr", "@": "MatMult"}
+_CMP = {"<": "Lt", "<=": "LtE", ">": "Gt", ">=": "GtE", "==": "Eq", "!=": "NotEq"}
+
+
+def _cs(s):
+    return '"' + s.replace('"', '""') + '"'
+
+
+def _cz(n):
+    n = int(n)
+    return f"({n})%Z" if n < 0 else f"{n}%Z"
+
+
+def f32_bits(x):
+    return _struct.unpack("<I", _struct.pack("<f", float(x)))[0]
+
+
+def coq_lit(v):
+    if isinstance(v, bool):
+        return f"(LBool {'true' if v else 'false'})"
+    if isinstance(v, int):
+        return f"(LInt {_cz(v)})"
+    if isinstance(v, float):
+        return f"(LFloat {_cz(f32_bits(v))})"
+    if isinstance(v, list):
+        return "(LInts [" + "; ".join(_cz(x) for x in v) + "])"
+    raise TypeError(v)
+
+
+def coq_attrv(v):
+    if isinstance(v, bool):
+        return f"(AInt {_cz(int(v))})"
+    if isinstance(v, int):
+        return f"(AInt {_cz(v)})"
+    if isinstance(v, float):
+        return f"(AFloat {_cz(f32_bits(v))})"
+    if isinstance(v, list):
+        return "(AInts [" + "; ".join(_cz(x) for x in v) + "])"
+    raise TypeError(v)
+
+
+def coq_expr(e):
+    k = e[0]
+    if k in ("var", "glob"):
+        return f"(EVar {_cs(e[1])})"
+    if k == "lit":
+        return f"(ELit {coq_lit(e[1])})"
+    if k == "un":
+        return f"(EUn {_cs('USub' if e[1] == '-' else 'Not')} {coq_expr(e[2])})"
+    if k == "bin":
+        return f"(EBin {_cs(_BIN[e[1]])} {coq_expr(e[2])} {coq_expr(e[3])})"
+    if k == "cmp":
+        return f"(ECmp {_cs(_CMP[e[1]])} {coq_expr(e[2])} {coq_expr(e[3])})"
+    if k in ("call", "fcall"):
+        args = "[" + "; ".join("None" if a is None else f"Some {coq_expr(a)}" for a in e[2]) + "]"
+        kws = "[" + "; ".join(f"({_cs(kw)}, {('KName ' + _cs(av[1])) if av[0] == 'ref' else ('KLit ' + coq_attrv(av[1]))})" for kw, av in e[3]) + "]"
+        head = f"(COp {_cs(e[1])})" if k == "call" else f"(CFun {_cs(e[1])})"
+        return f"(ECall {head} {args} {kws})"
+    raise TypeError(e)
+
+
+def coq_block(stmts):
+    return "[" + "; ".join(coq_stmt(s) for s in stmts) + "]"
+
+
+def coq_stmt(s):
+    k = s[0]
+    if k == "assign":
+        return f"(SAssign {_cs(s[1])} {coq_expr(s[2])})"
+    if k == "tassign":
+        return f"(STuple [{'; '.join(_cs(x) for x in s[1])}] {coq_expr(s[2])})"
+    if k == "if":
+        return f"(SIf {coq_expr(s[1])} {coq_block(s[2])} {coq_block(s[3])})"
+    if k == "for":
+        return f"(SFor {_cs(s[1])} {coq_expr(s[2])} {coq_block(s[3])})"
+    if k == "while":
+        return f"(SWhile {_cs(s[1])} {coq_block(s[2])})"
+    if k == "break_if":
+        return f"(SIf (EVar {_cs(s[1])}) [SBreak] [])"
+    if k == "return":
+        return f"(SReturn [{'; '.join(coq_expr(x) for x in s[1])}])"
+    raise TypeError(s)
+
+
+def coq_func(p):
+    tps = "[" + "; ".join(_cs(n) for (n, _d, _s) in p["tparams"]) + "]"
+    kinds = {"float": "AKFloat", "int": "AKInt", "bool": "AKBool"}
+    aps = "[" + "; ".join(f"({_cs(n)}, {kinds[k]}, {'false' if d is None else 'true'})" for (n, k, d) in p["aparams"]) + "]"
+    return f"(Build_func {_cs(p['name'])} {tps} {aps} {coq_block(p['body'])})"
+
+
+MODULE_NAMES = ["script", "FLOAT", "INT64", "BOOL", "op"]
+
+
+def analysis_globals(p):
+    """name -> truth value of every module-level name visible to the function (what AstAnalyzer is given)."""
+    g = {n: True for n in MODULE_NAMES}
+    for h in p["subs"]:
+        g[h["name"]] = True
+    for k, v in p["globals"].items():
+        g[k] = bool(v)
+    return g
+
+
+def coq_globals(p):
+    g = analysis_globals(p)
+    return "[" + "; ".join(f"({_cs(k)}, {'true' if v else 'false'})" for k, v in sorted(g.items())) + "]"
